@@ -36,7 +36,10 @@ def gen_graph(rng, nmax, p_remote):
             else:
                 cnt = min(i, rng.choice([1, 1, 1, 2, 2, 3]))
                 ins.append(["n", rng.sample(range(i), cnt)])
-        ns.append({"k": rng.randint(0, 99), "ins": ins, "ex": rng.random() < p_remote})
+        nd = {"k": rng.randint(0, 99), "ins": ins, "ex": rng.random() < p_remote}
+        if len(ins) == 1 and rng.random() < 0.25:
+            nd["macro"] = True      # a nested macro child with one input
+        ns.append(nd)
     return ns
 
 
@@ -91,16 +94,33 @@ def build(case, name="wf"):
         for j, inp in enumerate(nd["ins"]):
             if inp[0] == "c":
                 kw[nodes.ARG[j]] = inp[1]
-        node = nodes.LIN[m](label=f"n{i}", **kw)
+        if nd.get("macro"):
+            node = M2(label=f"n{i}", k=nd["k"], **({"x": kw["a"]} if "a" in kw else {}))
+        else:
+            node = nodes.LIN[m](label=f"n{i}", **kw)
         wf.add_child(node)
         children.append(node)
         for j, inp in enumerate(nd["ins"]):
             if inp[0] == "n":
                 for u in reversed(inp[1]):       # connect lowest priority first: newest connection wins
-                    node.inputs[nodes.ARG[j]].connect(children[u].outputs.y)
+                    node.inputs["x" if nd.get("macro") else nodes.ARG[j]].connect(children[u].outputs[_out(children[u])])
         if nd["ex"]:
             node.executor = ex
     return wf, children, ex
+
+
+from pyiron_workflow.nodes.macro import as_macro_node  # noqa: E402
+
+
+@as_macro_node("y")
+def M2(self, k, x):
+    self.a = nodes.Lin1(tag=-1, k=k, a=x)
+    self.b = nodes.Lin2(tag=-2, k=5, a=self.a, b=7)
+    return self.b
+
+
+def _out(node):
+    return "y"
 
 
 def make_hook(children, ex, oracle):
@@ -195,7 +215,7 @@ def graph_coq(case):
     ns = []
     for nd in case["nodes"]:
         ins = cl((f"IConst {cz(i[1])}" if i[0] == "c" else "IConn " + cl(cn(u) for u in i[1])) for i in nd["ins"])
-        ns.append(f"{{| n_k := {cz(nd['k'])}; n_ins := {ins}; n_remote := {cb(nd['ex'])} |}}")
+        ns.append(f"{{| n_k := {cz(nd['k'])}; n_ins := {ins}; n_remote := {cb(nd['ex'])}; n_macro := {cb(bool(nd.get('macro')))} |}}")
     return cl(ns)
 
 
@@ -210,7 +230,10 @@ def expected_values(case):
     vals = []
     for nd in case["nodes"]:
         args = [(i[1] if i[0] == "c" else vals[i[1][0]]) for i in nd["ins"]]
-        vals.append((nd["k"] + sum((j + 1) * a for j, a in enumerate(args))) % nodes.M)
+        v = (nd["k"] + sum((j + 1) * a for j, a in enumerate(args))) % nodes.M
+        if nd.get("macro"):
+            v = (5 + v + 2 * 7) % nodes.M
+        vals.append(v)
     return vals
 
 
@@ -235,8 +258,13 @@ def oracle(case, obs):
     for i in range(n):
         if log.count(["s", i]) != 1 or log.count(["f", i]) != 1:
             return f"not-once: child n{i} started {log.count(['s', i])}x / finished {log.count(['f', i])}x"
-        if obs["calls"].count(i) != 1:
+        if not case["nodes"][i].get("macro") and obs["calls"].count(i) != 1:
             return f"not-once: function of n{i} called {obs['calls'].count(i)}x"
+    n_mac = sum(1 for nd in case["nodes"] if nd.get("macro"))
+    if obs["calls"].count(-1) != n_mac or obs["calls"].count(-2) != n_mac:
+        return "not-once: the children of a nested macro were not each called exactly once"
+    for i in range(n):
+        pass
     for i, nd in enumerate(case["nodes"]):
         for inp in nd["ins"]:
             if inp[0] == "n":
